@@ -115,6 +115,15 @@ func (e *Emulator) Step() (*Step, error) {
 		// (including constants pointing to the following instruction)
 		// are still valid.
 		if rStore, ok := ef.(expr.RegStore); ok && rStore.Key() == expr.IPKey {
+			// A jump to the instruction following in the original code
+			// is not a real jump. Such an instruction doesn't terminate
+			// a basic block, so it can be moved and the constant can be
+			// stale. Emulation then simply falls through.
+			target, _ := expr.ConstUint[model.Addr](rStore.Value().(expr.Const))
+			if target == ins.OrigAddr()+ins.Len() {
+				continue
+			}
+
 			jumped = true
 		}
 
